@@ -163,7 +163,51 @@ def finding_matches(entry: dict, prop: str, o: Obligation) -> bool:
     )
 
 
-def run_property(prop: str, rules_fn: Callable[[Ctx], None], repo: str, tier: str, index: Optional[Index] = None):
+def _failing_rule(rules_fn, exc):
+    """(globals dict, name) of the rule function - called directly by `rules_fn` - in which `exc` was raised, or None"""
+    frames = []
+    tb = exc.__traceback__
+    while tb is not None:
+        frames.append(tb.tb_frame)
+        tb = tb.tb_next
+    for i, fr in enumerate(frames):
+        if fr.f_code is rules_fn.__code__ and i + 1 < len(frames):
+            nxt = frames[i + 1]
+            name = nxt.f_code.co_name
+            fn = nxt.f_globals.get(name)
+            if callable(fn) and getattr(fn, "__code__", None) is nxt.f_code:
+                return nxt.f_globals, name
+    return None
+
+
+def _run_past_vanished_anchors(prop, rules_fn, ix, tier, first_exc, errors, max_rounds=6):
+    """Re-run the rules with every rule function that raised an AnalysisError replaced by a no-op, looking for a definite violation (not a
+    listed known finding) in the others.  Returns the context of the run that found one, else None (the verdict stays `analysis error`)."""
+    patched = []
+    try:
+        exc = first_exc
+        for _ in range(max_rounds):
+            where = _failing_rule(rules_fn, exc)
+            if where is None:
+                return None
+            g, name = where
+            patched.append((g, name, g[name]))
+            g[name] = lambda *a, **k: None
+            status, ctx2, errs2 = run_property(prop, rules_fn, ix.repo, tier, index=ix, _skip=True)
+            if status == 1 and ctx2 is not None:
+                _known = load_known_findings()
+                if any(o.verdict == "violation" and not any(finding_matches(k, prop, o) for k in _known) for o in ctx2.obs):
+                    return ctx2
+            exc = getattr(ctx2, "_last_analysis_error", None) if ctx2 is not None else None
+            if exc is None:
+                return None
+    finally:
+        for g, name, fn in patched:
+            g[name] = fn
+    return None
+
+
+def run_property(prop: str, rules_fn: Callable[[Ctx], None], repo: str, tier: str, index: Optional[Index] = None, _skip=None):
     """Run the rules; returns (status, ctx, errors) where status in {0,1,2}. No printing, no files."""
     errors: List[str] = []
     ctx = None
@@ -192,6 +236,14 @@ def run_property(prop: str, rules_fn: Callable[[Ctx], None], repo: str, tier: st
             ctx.extra.setdefault("analysis_errors_after_violation", []).append(f"rule={e.rule} reason={e.reason}")
         else:
             errors.append(f"rule={e.rule} reason={e.reason}")
+            if ctx is not None:
+                ctx._last_analysis_error = e
+            # ... and the rules that come *after* the one that gave up may still find a definite violation: run them without it
+            if _skip is None and ctx is not None:
+                later = _run_past_vanished_anchors(prop, rules_fn, ctx.ix, tier, e, errors)
+                if later is not None:
+                    later.extra.setdefault("analysis_errors_after_violation", []).extend(errors)
+                    return 1, later, []
     except RecursionError as e:  # pragma: no cover
         errors.append(f"rule=internal reason=RecursionError {e}")
     except Exception as e:  # internal failure is an analysis error, never a violation
